@@ -17,14 +17,14 @@
     types = the ones the decoders reconstruct from context, exactly one member of the union-like
     structs, `ttlv.Value`s carry the tag they are sent under, fields outside the version in force or
     zero under `omitempty` hold the zero value); the items the encoder produces are representable
-    (`Item.AllInRange`: tags in (0, 2^24), lengths < 2^32); and — a MODEL ARTEFACT — the fuel
-    `bs.length + 8` of the model's `unmarshal` covers `v.depth` (`roundtrip_anyfuel` does without).
+    (`Item.AllInRange`: tags in (0, 2^24), lengths < 2^32).  No hypothesis about the model's fuel:
+    `fuel_suffices` shows the decoder's fuel `bs.length + 3000000` covers every well-formed value.
   * `norm S d tag v` — what the decoder returns: the input with nil byte strings that are emitted
     replaced by empty ones (and, in the two batch-item codecs, empty optional byte strings by nil);
     `norm_content` says that nothing else changes, `norm_idempotent` that it is a normal form.
 -/
 import KmipModel.Gen.Schema
-import KmipModel.Lemmas.PlanRoundtrip17
+import KmipModel.Lemmas.PlanRoundtrip18
 namespace Kmip.C01
 open Kmip
 
@@ -36,7 +36,7 @@ theorem roundtrip (S : Schema) (hU : S.unambiguous = true) (d tag : Nat) (v : Va
     ∃ bs, marshal S d tag v = .ok bs
       ∧ unmarshal S d tag bs = .ok (norm S d tag v)
       ∧ marshal S d tag (norm S d tag v) = .ok bs := by
-  obtain ⟨hwf, hir, hfu⟩ := hc
+  obtain ⟨hwf, hir⟩ := hc
   cases hn : normTop S d tag v with
   | none => rw [hn] at hwf; contradiction
   | some p =>
@@ -44,11 +44,13 @@ theorem roundtrip (S : Schema) (hU : S.unambiguous = true) (d tag : Nat) (v : Va
     obtain ⟨items, he, hm, hm', _, hu⟩ := roundtrip_core S hU d tag v v' w hn hir
     have hnorm : norm S d tag v = v' := by unfold norm; rw [hn]
     refine ⟨encList items, hm, ?_, by rw [hnorm]; exact hm'⟩
-    rw [unmarshal_eq, hnorm]
-    exact hu _ (hfu items w he)
+    have hd := normTop_dyn_lt hn
+    rw [unmarshal_eq, if_neg (by omega), hnorm]
+    exact hu _ (depth_bound S hU d tag v v' w items w hn he)
 
-/-- C01 without the fuel artefact: the same with the decoder run under ANY fuel `≥ v.depth`
-    (`unmarshal S d tag bs = unmarshalFuel S (bs.length + 8) d tag bs` by definition). -/
+/-- the same with the decoder run under ANY fuel `≥ v.depth` (`unmarshalFuel` is the model's
+    `unmarshalWith`; `unmarshal` runs it with `decFuel bs.length = bs.length + 3000000`, which always
+    suffices: `depth_bound`). -/
 theorem roundtrip_anyfuel (S : Schema) (hU : S.unambiguous = true) (d tag : Nat) (v : Val)
     (hwf : (normTop S d tag v).isSome = true)
     (hir : ∀ items ver', encK S marshalFuel (S.dyn d).kind (topTag S d tag) v none = .ok (items, ver') →
@@ -65,12 +67,22 @@ theorem roundtrip_anyfuel (S : Schema) (hU : S.unambiguous = true) (d tag : Nat)
     exact ⟨encList items, hm, by rw [hnorm]; exact hu, by rw [hnorm]; exact hm'⟩
 
 theorem unmarshal_is_unmarshalFuel (S : Schema) (d tag : Nat) (bs : Bytes) :
-    unmarshal S d tag bs = unmarshalFuel S (bs.length + 8) d tag bs := rfl
+    unmarshal S d tag bs =
+      if S.dyns.length ≤ d then .err .other else unmarshalFuel S (decFuel bs.length) d tag bs :=
+  unmarshal_eq S d tag bs
+
+/-- the fuel of the model's decoder is never the limiting factor on the encoding of a well-formed
+    value (the Go decoder has no fuel). -/
+theorem fuel_suffices (S : Schema) (hU : S.unambiguous = true) (d tag : Nat) (v v' : Val) (w : Option Ver)
+    (items : List Item) (w2 : Option Ver) (hwf : normTop S d tag v = some (v', w))
+    (he : encK S marshalFuel (S.dyn d).kind (topTag S d tag) v none = .ok (items, w2)) :
+    v.depth ≤ decFuel (encList items).length :=
+  depth_bound S hU d tag v v' w items w2 hwf he
 
 /-- the decoded value is a normal form. -/
 theorem norm_idempotent (S : Schema) (hU : S.unambiguous = true) (d tag : Nat) (v : Val)
     (hc : Conforms S d tag v) : norm S d tag (norm S d tag v) = norm S d tag v := by
-  obtain ⟨hwf, hir, _⟩ := hc
+  obtain ⟨hwf, hir⟩ := hc
   cases hn : normTop S d tag v with
   | none => rw [hn] at hwf; contradiction
   | some p =>
